@@ -14,6 +14,7 @@ import TwSpec
 import TwProofs.Lemmas.Utf8Valid
 import TwProofs.Lemmas.TrimSplit
 import TwProofs.Lemmas.TextCall
+import TwProofs.Lemmas.TextCallNum
 import TwProofs.C12
 
 namespace Tw.C11
@@ -244,6 +245,41 @@ example : evaluateStringPure [] (b "{{ name.upper() }}") [(b "name", .str (b "an
     (b "name") (.str (b "ann")) (by simp) (by decide) (b "upper") (by decide) [32] [32] (by decide) (by decide) (.str (b "ann")) (by rfl) (by rfl)
     (.str (b "ANN")) (by rfl)
   have hs : callSrc [32] (b "name") (b "upper") [32] = b "{{ name.upper() }}" := by decide
+  rw [hs] at this
+  exact this
+
+/-- **a builtin call with a number as its argument prints its result, from the source bytes on**: for
+    every data entry `(k, g)` whose converted value `rv` has a table of functions, every function name
+    `fn`, every decimal number `d` that fits in an int64 and every white space after `{{`, around the
+    number and before `}}`: when the function of that name answers `v` on `rv` with the integer `d`, the
+    template `{{ k.fn(d) }}` renders the printed `v` (`repeat`, `at`, `truncate`, `decimal`, …).
+    Lexer (`lex_callNum`), parser (`parse_callNum_stmt`: a one-element argument list) and evaluator composed. -/
+theorem builtin_call_with_number_prints_from_source (custom : List ((VType × Bytes) × Nat)) (data : List (Bytes × GoVal)) (env : Env)
+    (hd : KeysDistinct data) (h : envFromMap data = .ok env) (k : Bytes) (g : GoVal) (hm : (k, g) ∈ data) (hk : isName k)
+    (fn : Bytes) (hfn : isName fn) (d : Bytes) (hdg : isDigits d) (hb : digitsToNat d < 2 ^ 63)
+    (g1 g2 g3 g4 : Bytes) (hg1 : allWs g1) (hg2 : allWs g2) (hg3 : allWs g3) (hg4 : allWs g4)
+    (rv : Val) (hrv : nativeToObject g = some rv) (htab : hasBuiltinTable rv.type = true) (v : Val)
+    (hcall : callBuiltin rv fn [.int (Int64.ofNat (digitsToNat d))] = some (.ok v)) :
+    evaluateStringPure custom (callNumSrc g1 k fn g3 d g4 g2) data = .ok v.toStr := by
+  obtain ⟨v0, hv0, hget⟩ := C12.data_is_visible data env hd h k g hm
+  have hv0' : v0 = rv := by rw [hrv] at hv0; cases hv0; rfl
+  subst hv0'
+  obtain ⟨prog, t2, t4, t6, t7, hp, hs⟩ := parse_callNum_source g1 k fn g3 d g4 g2 hg1 hg2 hg3 hg4 hk hfn hdg (by omega)
+  unfold evaluateStringPure envOrFail
+  rw [hp]
+  simp only [h, hs]
+  rw [show evalFuel = (evalFuel - 6) + 1 + 1 + 1 + 1 + 1 + 1 from by decide, evalProg_cons, evalStmt_succ]
+  simp only [stmtBody, calleesAt_expr]
+  simp only [evalExpr, hget, htab, evalExprs, hcall, Bool.not_true, Bool.false_eq_true, if_false, Res.bind_ok]
+  rw [evalProg_nil]
+  simp [resToOut]
+
+example : evaluateStringPure [] (b "{{ s.repeat( 3 ) }}") [(b "s", .str (b "ab"))] = .ok (b "ababab") := by
+  have := builtin_call_with_number_prints_from_source [] [(b "s", .str (b "ab"))] [[(b "s", .str (b "ab"))]] (by simp [KeysDistinct]) (by rfl)
+    (b "s") (.str (b "ab")) (by simp) (by decide) (b "repeat") (by decide) (b "3") (by decide) (by decide)
+    [32] [32] [32] [32] (by decide) (by decide) (by decide) (by decide) (.str (b "ab")) (by rfl) (by rfl)
+    (.str (b "ababab")) (by rfl)
+  have hs : callNumSrc [32] (b "s") (b "repeat") [32] (b "3") [32] [32] = b "{{ s.repeat( 3 ) }}" := by decide
   rw [hs] at this
   exact this
 
